@@ -11,8 +11,8 @@ CONSTANTS
   GenBlockTypes = {"c"}
   GenNoteKinds = {"title", "D", "R", "N", "E", "I", "M"}
   GenSubTypes = {"B", "C", "S", "T", "W"}
-  Terse = FALSE
-  Rich = FALSE
+  Terse = 0
+  Rich = 1
   Phased = TRUE
 INVARIANT WellFormed
 VIEW View
